@@ -54,11 +54,14 @@ _PUSH = _op(
 _FETCH = _op("fetch", request=st.lists(st.integers(0, 7), min_size=1, max_size=2), jobs=st.sampled_from([1, 4]))
 _STATUS = _op("status", query=st.lists(st.integers(0, 40), min_size=1, max_size=6),
               qdirs=st.lists(st.integers(0, 7), max_size=2), shallow=st.booleans(),
+              trees_from=st.sampled_from(["cache", "cache", "remote"]),
               jobs=st.sampled_from([None, 1, 4]))
 _DELETE = _op("delete_remote", picks=st.lists(st.integers(0, 40), min_size=1, max_size=3),
               what=st.sampled_from(["indexed-dirs", "dirs", "files", "any"]))
 _REOPEN = _op("reopen")
-_STEP = st.one_of(_PUSH, _PUSH, _PUSH, _FETCH, _STATUS, _STATUS, _DELETE, _DELETE, _REOPEN)
+_DELCACHE = _op("delete_cache", picks=st.lists(st.integers(0, 40), min_size=1, max_size=2))
+_STEP = st.one_of(_PUSH, _PUSH, _PUSH, _PUSH, _FETCH, _FETCH, _STATUS, _STATUS, _STATUS, _DELETE, _DELETE, _DELETE,
+                  _REOPEN, _DELCACHE)
 
 
 def _vals(s):
@@ -233,6 +236,8 @@ class IndexMachine(TraceMachine):
             self._check_reported(_vals(cs.ok) | _vals(cs.deleted), seen["listing"], "push")
         self._check_cleared(stale, {i for i in ids if i.endswith(".dir")}, "push")
         failed = bool(inj.faulted) or aborted or bool(res is not None and res.failed)
+        if res is not None and res.failed and not inj.faulted:
+            self.labels.add("push-failed-source-missing")
         if failed:
             self.disturbed = True
             self.labels.add("push-aborted" if aborted else "push-failed")
@@ -275,7 +280,7 @@ class IndexMachine(TraceMachine):
         else:
             self.labels.add("fetch-nothing-there")
 
-    def do_status(self, query, qdirs, shallow, jobs):
+    def do_status(self, query, qdirs, shallow, jobs, trees_from="cache"):
         from dvc_data.hashfile.status import status
 
         if self.w is None:
@@ -287,7 +292,10 @@ class IndexMachine(TraceMachine):
         Q = set(q) if shallow else expand(self.w, q)
         stale = self._stale_before()
         self._status_evaluated()
-        res = status(self.remote, hinfos(q), index=self.index, cache_odb=self.cache, shallow=shallow, jobs=jobs)
+        # shallow queries may read trees from the remote itself (cache_odb=None); expanded ones need every
+        # queried directory loadable, which only the cache guarantees
+        cache_odb = None if (trees_from == "remote" and shallow) else self.cache
+        res = status(self.remote, hinfos(q), index=self.index, cache_odb=cache_odb, shallow=shallow, jobs=jobs)
         now = self.listing()
         ex, mi = _vals(res.exists), _vals(res.missing)
         if ex & mi or (ex | mi) != Q:
@@ -322,6 +330,16 @@ class IndexMachine(TraceMachine):
                 self.labels.add("deleted-" + ("dir" if oid.endswith(".dir") else "file"))
                 if oid in idx:
                     self.labels.add("deleted-indexed-" + ("dir" if oid.endswith(".dir") else "file"))
+
+    def do_delete_cache(self, picks):
+        """File objects vanish from the cache: later closed pushes naming them fail for lack of a source
+        (directory objects stay, so that trees remain loadable - the precondition of every request)."""
+        if self.w is None:
+            return
+        have = sorted(i for i in ref.store_ids(self.w.cache_root) if not i.endswith(".dir"))
+        for i in picks:
+            if have and external_delete(self.w.cache_root, have[i % len(have)]):
+                self.labels.add("cache-lost-file")
 
     def do_reopen(self):
         if self.w is None:
